@@ -35,6 +35,8 @@ func runC18(p *core.Prog, r *core.Report) {
 	c18R5(p, r)
 	c18R6(p, r)
 	lossyKeyRule(p, r, "C18.R7")
+	// a layout target resolves the tag it was just given exactly (shared with C06.R6)
+	c06R6(p, r, "C18.R8")
 }
 
 // lossyKeyRule: a cache key that stands for a structured value by a rendering of it (a String()
